@@ -74,13 +74,49 @@ def regenerate(modules=None):
     manifests = {}
     failures = []
     changed = []
-    for mod, specs in kernels.MODULES.items():
-        text, mans, fails = py2coq.translate_module(mod, specs, REPO, registry)
-        # imports of earlier Gen modules
-        deps = kernels.MODULE_DEPS.get(mod, [])
-        if deps:
-            imp = 'From OV Require Import ' + ' '.join('Gen.' + d for d in deps) + '.\n'
-            text = text.replace('Set Implicit Arguments.\n', 'Set Implicit Arguments.\n' + imp, 1)
+    # The translation is a pure function of the current sources of REPO/optiland, of the translator and of the kernel
+    # lists: its result is memoised under a digest of exactly those file contents (build/gencache, not committed), so
+    # that twenty checks on one unchanged tree translate once.  Any edit of any of these files gives a new digest.
+    import hashlib, pickle, glob as _glob
+    hsh = hashlib.sha256()
+    srcs = sorted(_glob.glob(os.path.join(REPO, 'optiland', '**', '*.py'), recursive=True))
+    srcs += sorted(_glob.glob(os.path.join(VERIF, 'tools', 'py2coq*.py'))) + sorted(_glob.glob(os.path.join(VERIF, 'tools', 'kernels*.py')))
+    for fn in srcs:
+        hsh.update(os.path.relpath(fn, '/').encode() + b'\0')
+        with open(fn, 'rb') as fh:
+            hsh.update(fh.read())
+        hsh.update(b'\1')
+    cache_fn = os.path.join(BUILD, 'gencache', hsh.hexdigest() + '.pkl')
+    translated = None
+    if os.path.exists(cache_fn) and not os.environ.get('VERIF_NO_GENCACHE'):
+        try:
+            with open(cache_fn, 'rb') as fh:
+                translated = pickle.load(fh)
+        except Exception:   # noqa
+            translated = None
+    if translated is None:
+        translated = []
+        for mod, specs in kernels.MODULES.items():
+            text, mans, fails = py2coq.translate_module(mod, specs, REPO, registry)
+            # imports of earlier Gen modules
+            deps = kernels.MODULE_DEPS.get(mod, [])
+            if deps:
+                imp = 'From OV Require Import ' + ' '.join('Gen.' + d for d in deps) + '.\n'
+                text = text.replace('Set Implicit Arguments.\n', 'Set Implicit Arguments.\n' + imp, 1)
+            translated.append((mod, text, mans, fails))
+        try:
+            os.makedirs(os.path.dirname(cache_fn), exist_ok=True)
+            tmp = cache_fn + f'.{os.getpid()}.tmp'
+            with open(tmp, 'wb') as fh:
+                pickle.dump(translated, fh)
+            os.replace(tmp, cache_fn)
+            # keep the cache small
+            old = sorted(_glob.glob(os.path.join(BUILD, 'gencache', '*.pkl')), key=os.path.getmtime)[:-6]
+            for o in old:
+                os.remove(o)
+        except Exception:   # noqa
+            pass
+    for mod, text, mans, fails in translated:
         if write_if_changed(os.path.join(COQ, 'Gen', mod + '.v'), text):
             changed.append(mod)
         for m in mans:
